@@ -45,7 +45,7 @@ def execute_task(task: dict) -> dict:
     if task["kind"] == "gen" or "exclude" in task:
         case["exclude"] = list(task.get("exclude") or [])
     res = None
-    if task["kind"] == "gen":
+    if True:
         # A generated program must stay inside the claimed domain: no constant-only sub-expression
         # on which the compiler's folders and the run-time arithmetic disagree (C11, not claimed).
         # An escape is a generator defect, counted as `invalid`, never reported as a violation.
